@@ -41,7 +41,7 @@ CLASS_LISTS = [[], [4], [3, 4], [4, 4], [7], [1], [37], [31], [4, 7, 3], [7, 37]
 SUB_LISTS = [[], [0x40c], [0x40c, 0x40e], [0x401]]      # BSD subclasses only (the scope of the statement)
 
 
-def gen_dump(rnd, big=False, allow_zero_tid=True, residue_case=False, world=None, orphans=0.0, samples=0.0):
+def gen_dump(rnd, big=False, allow_zero_tid=True, residue_case=False, world=None, orphans=0.0, samples=0.0, learn=0.0):
     w = world or World(rnd, big_tids=False, allow_zero_tid=allow_zero_tid)
     g = gen.ProgGen(w, rnd, ntids=3, noise=0.02)
     pids = {1: 11, 2: 12, 3: rnd.choice([13, 0])}
@@ -53,6 +53,10 @@ def gen_dump(rnd, big=False, allow_zero_tid=True, residue_case=False, world=None
         t = rnd.randrange(1, 4)
         o = rnd.choice([x for x in (1, 2, 3, 4) if x != t])
         r = rnd.random()
+        if learn and rnd.random() < learn:
+            # a parent announces another thread: data record, (other records,) string record
+            items.append([w.ntd(t, o, rnd.choice([11, 12, 14, 0]))] + (g.ord_single(t) if rnd.random() < 0.5 else []) + [w.nts(t, rnd.choice(['alpha', 'delta', 'newp']))])
+            continue
         if orphans and rnd.random() < orphans:
             # halves of the two-record announcements on their own: a string record whose data record is not in THIS dump
             # (it must learn nothing), a data record whose string never comes
